@@ -13,7 +13,9 @@ var Vocab = []string{"|", "(", ")", "[", "]", ",", ";", ".", "=", "==", "!=", "=
 	"where", "filter", "project", "extend", "summarize", "sort", "order", "take", "limit", "top", "join", "kind", "inner", "innerunique", "leftouter",
 	"on", "as", "render", "with", "asc", "desc", "nulls", "first", "last", "count", "let", "$left", "$right", "true", "false", "null",
 	"not", "isnull", "isnotnull", "iff", "iif", "strcat", "tolower", "toupper", "now", "countif", "sum", "min", "max",
-	"!", "0x", "\"u", "'", "`", "\\", "//c\n", "#", "\xff", "é", "\x00", "1e", "..", "barchart", "title"}
+	"!", "0x", "\"u", "'", "`", "\\", "//c\n", "#", "\xff", "é", "\x00", "1e", "..", "barchart", "title",
+	// malformed or run-together number spellings
+	"0.1.2", "0..5", "1..2", "1.2.3", "0x1g", "1e5e5", "5.e", "..5", "00.0.0", "1.e1.e1", "0x", "0xx1", "1_000"}
 
 // Hostile bytes for byte-level mutation.
 var hostileBytes = []byte{'\'', '"', '`', '\\', '/', '-', '*', ';', '(', ')', '[', ']', ' ', 0, '\n', '\t', 0xff, 0xc3, '!', '=', '~', '|', ',', '.', '0', 'x', 'e', '$', '_'}
